@@ -15,6 +15,8 @@ var (
 	// LockFn / UnlockFn implement the lock model (mode: 'L' lock, 'R' read-lock).
 	LockFn   func(m interface{}, mode byte, site string, do func())
 	UnlockFn func(m interface{}, mode byte, site string, do func())
+	// TryLockFn decides a TryLock through the lock model (do performs the real TryLock).
+	TryLockFn func(m interface{}, site string, do func() bool) bool
 	// SelectOrderFn returns the order in which the cases of a select are polled.
 	SelectOrderFn func(site string, n int) []int
 	// SelectBlockFn tells the simulator that the task is about to block in a select.
@@ -43,6 +45,20 @@ func MutexUnlock(m *sync.Mutex, site string) {
 		return
 	}
 	m.Unlock()
+}
+
+func MutexTryLock(m *sync.Mutex, site string) bool {
+	if f := TryLockFn; f != nil {
+		return f(m, site, m.TryLock)
+	}
+	return m.TryLock()
+}
+
+func RWTryLock(m *sync.RWMutex, site string) bool {
+	if f := TryLockFn; f != nil {
+		return f(m, site, m.TryLock)
+	}
+	return m.TryLock()
 }
 
 func RWLock(m *sync.RWMutex, site string) {
